@@ -1029,7 +1029,7 @@ example :
 
 A closed slice whose content consists of leaf / text nodes (`Slice.inlineLeaves`) — what `insert`,
 `replace_with` and typing produce for inline content.  Here the loop of `fit` does run; it keeps the
-invariant `LoopInv` (Proofs/FitInline.lean): every frontier entry holds a match, `placed` has a
+invariant `FitLoopInv` (Proofs/FitInline.lean): every frontier entry holds a match, `placed` has a
 last-child chain as long as the frontier, the unplaced slice stays closed and flat (so `open_start`
 stays 0 and only slice level 0 is ever looked at), and `placed` is large enough for a
 non-negative `insert`.  One more decidable hypothesis on the schema, `Schema.wrapOKB`: wrapper types
@@ -1051,7 +1051,7 @@ theorem insertInline_total (S : Schema) (hdet : detB S = true) (hfill : S.filler
 
 /-- the invariant of the loop behind `insertInline_total`: every iteration goes through and keeps it -/
 theorem loopInv_step (S : Schema) (hdet : detB S = true) (hfill : S.fillersOKB = true) (hwrap : S.wrapOKB = true)
-    (D : Nat) (st : FitState) (inv : LoopInv S D st) : ∃ st', fitStep S st = .ok st' ∧ LoopInv S D st' :=
+    (D : Nat) (st : FitState) (inv : FitLoopInv S D st) : ∃ st', fitStep S st = .ok st' ∧ FitLoopInv S D st' :=
   fitStep_ok S (detS_of_detB S hdet) (fillersOK_of_B S hfill) (wrapOK_of_B S hwrap) D st inv
 
 /-- the hypotheses are satisfiable and the loop really runs: typing `"x"` between the two paragraphs of
@@ -1095,7 +1095,7 @@ The *end* half — `open_end = depth(close target) ≤` the last-child chain of 
 `placed` — needs `placed` and the frontier *in step* at the end of the loop
 (`frontier.length - 1 ≤ spineR placed`; `closeFit_spine` carries it through `close`).  That is proved
 where the loop is proved to keep it: deletions (no iteration) and closed slices of leaf / text nodes
-(`LoopInv`), i.e. the two classes for which `replace_step` is proved total.
+(`FitLoopInv`), i.e. the two classes for which `replace_step` is proved total.
 
 FULL STATEMENT AIMED AT (`fit_emits_wf`, not proved for slices the loop has to open):
 `detB S → S.fillersOKB → S.wrapOKB → C01.Valid S doc → S.nodeAttrsOK doc → sl.wf → (guards below) →
